@@ -26,7 +26,7 @@
        loader's own error, and [LoadingError unloaded] for SpiNNakerLoadingError;
      * every transmitted packet and its reply are appended to the log of the [world]. *)
 From Coq Require Import ZArith List Bool.
-Require Import Rig.Generated.GenLoad Rig.Model.Base Rig.Model.Regions Rig.Spec.Regions.
+Require Import Rig.Generated.GenLoad Rig.Generated.GenLoadShape Rig.Model.Base Rig.Model.Regions Rig.Spec.Regions.
 Import ListNotations.
 Open Scope Z_scope.
 
@@ -425,10 +425,10 @@ Fixpoint flood_fill_aplx (bins : list (list Z)) (c : ctrl) (w : world) (am : app
 (* ---------------------------------------------------------------- signals *)
 Definition send_signal_start (w : world) (app_id : Z) : result world :=
   send_ w (mkPkt signal_x signal_y signal_p signal_cmd (signal_arg1 signal_type_start)
-                 (signal_arg2 AppSignal_start app_id) signal_arg3 []).
+                 (signal_arg2 load_start_signal app_id) signal_arg3 []).
 
 Definition count_cores_wait (w : world) (app_id : Z) : result (world * Z) :=
-  bind (send w (mkPkt count_x count_y count_p count_cmd count_arg1 (count_arg2 AppState_wait app_id)
+  bind (send w (mkPkt count_x count_y count_p count_cmd count_arg1 (count_arg2 load_count_state app_id)
                       count_arg3 []))
        (fun wr => match snd wr with
                   | RArgs n => Ok (fst wr, n)
@@ -438,7 +438,12 @@ Definition count_cores_wait (w : world) (app_id : Z) : result (world * Z) :=
 (* ---------------------------------------------------------------- load_application *)
 Inductive outcome :=
 | Returned
-| LoadingError (unloaded : appmap).
+| LoadingError (unloaded : appmap).       (* SpiNNakerLoadingError(unloaded): .app_map *)
+
+(* SpiNNakerLoadingError.__str__: the cores the message lists -- "(x, y, p)" for every core of every chip of
+   every binary of the map, in map order *)
+Definition error_cores (unloaded : appmap) : list core :=
+  flat_map (fun bt => cores_of_targets (snd bt)) unloaded.
 
 Definition core_count (am : appmap) : Z :=
   fold_right Z.add 0 (map (fun bt => fold_right Z.add 0 (map (fun t => zlen (snd t)) (snd bt))) am).
@@ -454,7 +459,7 @@ Fixpoint check_cores (c : ctrl) (w : world) (x y : Z) (ps : list Z) : result (ct
         let '(c1, w1, s) := cws in
         if is_member s AppState_members then           (* consts.AppState(value) *)
           bind (check_cores c1 w1 x y r) (fun cwl =>
-            Ok (fst cwl, if s =? AppState_wait then snd cwl else p :: snd cwl))
+            Ok (fst cwl, if s =? load_loaded_state then snd cwl else p :: snd cwl))
         else OtherError)
   end.
 
@@ -492,7 +497,7 @@ Fixpoint load_loop (fuel : nat) (bins : list (list Z)) (a : load_args) (total : 
     | O => OutOfFuel
     | S k =>
         let tries1 := load_next_tries tries in
-        bind (flood_fill_aplx bins c w unl (a_app a) true) (fun cw =>
+        bind (flood_fill_aplx bins c w unl (a_app a) load_fill_wait) (fun cw =>
           let c1 := fst cw in
           let w1 := snd cw in
           bind (if a_count a
@@ -623,13 +628,14 @@ Fixpoint chips_eqb (a : list (chip * chip_st)) (b : list (chip * list core_st)) 
 Definition impl_call := (list (pkt * reply) * list (chip * list core_st))%type.
 
 (* controller + machine model against the implementation: per call the outcome, the nn id afterwards, the
-   index of the first difference between the two traces (-1: none) and whether every core ends in the
-   same state *)
+   index of the first difference between the two traces (-1: none), whether every core ends in the
+   same state, and the cores the error's message lists *)
 Fixpoint observe (res : list (call_result * ctrl * machine * list (pkt * reply))) (impl : list impl_call)
-  : list (call_result * Z * Z * bool) :=
+  : list (call_result * Z * Z * bool * list core) :=
   match res, impl with
   | (o, c, m, tr) :: r, (itr, ist) :: s =>
-      (o, c_nn c, trace_diff 0 tr itr, chips_eqb (m_chips m) ist) :: observe r s
+      (o, c_nn c, trace_diff 0 tr itr, chips_eqb (m_chips m) ist,
+       match o with CLoadingError u => error_cores u | _ => [] end) :: observe r s
   | _, _ => []
   end.
 
